@@ -169,7 +169,7 @@ func (h *Sources) Delete(sources ...string) {
 func (h *Sources) Walk(pos int) {
 	history := h.Current()
 
-	if history == nil || history.Len() == 0 {
+	if history == nil || history.Len() == 0 || pos == 0 {
 		return
 	}
 
